@@ -99,6 +99,11 @@ func (c *ChordStorage) startLeaseRenewal(key string, token uint64) error {
 }
 
 func (c *ChordStorage) renewLeaseOnce(ctx context.Context, key string, l *leaseHolder) error {
+	// the background renewal and RenewLockLease may run at the same time: each renewal must present
+	// the token produced by the previous one, so they take turns
+	l.renewMu.Lock()
+	defer l.renewMu.Unlock()
+
 	prev := atomic.LoadUint64(&l.token)
 	next, err := c.KV.Renew(ctx, []byte(kvKeyName(key)), c.leaseTTL, prev)
 	if err != nil {
@@ -238,6 +243,7 @@ type leaseHolder struct {
 	sync.WaitGroup
 	ctx      context.Context
 	cancelFn context.CancelFunc
+	renewMu  sync.Mutex
 	token    uint64
 }
 
